@@ -271,6 +271,7 @@ def hSpawn : Handler := fun j => do
     -- C03 for ALL start genomes (in whatever order genes and nodes are listed; fix 48b1f99): the counters are at least every
     -- number / node id the start genome holds, and no record exists yet
     let c03 := g.genes.all (fun y => decide (y.inn ≤ ip.reg.nextInn)) && g.nodes.all (fun n => decide (n.id ≤ ip.reg.nextNode)) &&
+               g.modules.all (fun m => decide (m.inn ≤ ip.reg.nextInn) && decide (m.ctrl.id ≤ ip.reg.nextNode)) &&
                ip.reg.records.isEmpty
     return { corr := corr, spec := c06 && c02 && c01 && c03, nontrivial := (inputWF && g.genes.any (fun y => !y.en)) || ((← fldStr inp "origin").endsWith "/unsorted"), cls := (← fldStr inp "origin"),
              detail := (d.getD "") ++ (if used == consumed then "" else s!" randomness {used} vs {consumed}"),
